@@ -19,6 +19,7 @@ package body
 //@   modifies mpClosed
 //@   ensures mpClosed
 //@ func (*Modifier).ModifyResponse
+//@   at call all of Bytes before assert[the-multipart-body-is-assembled-in-a-buffer-of-this-call] fresh(self)
 //@   serves C20
 //@   at call 0 of HasSuffix before assert[the-open-ended-test-looks-at-the-range-being-parsed] arg0 == rng
 //@   at call 1 of Split after set rgPair = false
